@@ -56,6 +56,9 @@ func c07Exec(c *Sexp) (out Outcome) {
 			}
 		}
 	}
+	if fail == "" {
+		fail = reuseOracle(obs)
+	}
 	tags := parseTags(c, obs)
 	return Outcome{Real: "R:" + obs.direct + "|P:" + obs.viaParse, OracleFail: fail, Tags: tags,
 		Nontrivial: lists > 0 && rec.memoCalls-rec.bodyTotal > 0}
